@@ -39,7 +39,7 @@ type ListFault struct {
 //	Kind: "" follow forever | "error" connect error | "block" connect blocks until ctx cancelled |
 //	      "close" close the stream after After frames | "drop" silently drop frame number After (0-based) |
 //	      "dup" deliver frame number After twice | "status" insert a Status frame before frame After |
-//	      "bookmark" insert a Bookmark frame before frame After | "errorframe" insert an Error frame (Status object) before frame After |
+//	      "bookmark" insert a Bookmark frame before frame After | "errorframe" insert an Error frame (Status object) before frame After | "errorframe-obj" / "errorframe-nil" Error frame with an ordinary object / no payload |
 //	      "garbage" insert a frame whose object has no metadata before frame After (ends the session)
 type WatchFault struct {
 	Kind  string
@@ -356,6 +356,15 @@ func (st *stream) pump() {
 					}
 				case "errorframe":
 					if !st.send(watch.Event{Type: watch.Error, Object: &metav1.Status{Status: "Failure", Message: "injected", Code: 410}}) {
+						return
+					}
+				case "errorframe-obj":
+					// an Error frame whose payload is an ordinary object, not a Status
+					if !st.send(watch.Event{Type: watch.Error, Object: pod("ns", "errpayload", e.rv, nil)}) {
+						return
+					}
+				case "errorframe-nil":
+					if !st.send(watch.Event{Type: watch.Error, Object: nil}) {
 						return
 					}
 				case "garbage":
